@@ -229,15 +229,31 @@ fn vk_c01_gen_orthogonal_slider_quiets() {
 // iff the answer is "no attacker".
 pub const ATT_N: usize = 4;
 pub static mut ATT_CALLS: usize = 0;
-pub static mut ATT_BOARD: [Option<crate::chess::board::Board>; ATT_N] = [None, None, None, None];
 pub static mut ATT_PLAYER: [Option<Player>; ATT_N] = [None; ATT_N];
 pub static mut ATT_SQUARE: [u8; ATT_N] = [0; ATT_N];
 pub static mut ATT_ANSWER: [u64; ATT_N] = [0; ATT_N];
+pub static mut ATT_POSITION_OK: [bool; ATT_N] = [false; ATT_N];
+/// what position the harness expects the attack test to be made on: the original mailbox with up to three squares
+/// rewritten (set by the harness before the call, or -- for en passant, where the capturer is only known once the loop
+/// has yielded it -- completed from the iterator record at call time)
+pub static mut EXPECT_MB: Option<sym::Mailbox> = None;
+pub static mut EXPECT_LIFT: Option<u8> = None; // square emptied (our king)
+pub static mut EXPECT_EP: Option<(u8, u8, Player)> = None; // (ep square, victim square, mover): capturer = last yielded square
 pub fn attackers_contract(board: &crate::chess::board::Board, player: Player, square: Square) -> Bitboard {
     let ans: u64 = kani::any();
     unsafe {
         assert!(ATT_CALLS < ATT_N);
-        ATT_BOARD[ATT_CALLS] = Some(board.clone());
+        let mut want = EXPECT_MB.unwrap();
+        if let Some(k) = EXPECT_LIFT {
+            want[k as usize] = None;
+        }
+        if let Some((ep, victim, mover)) = EXPECT_EP {
+            let capturer = iter::yielded(iter::calls() - 1);
+            want[capturer.array_idx()] = None;
+            want[victim as usize] = None;
+            want[ep as usize] = Some(Piece::new(mover, PieceKind::Pawn));
+        }
+        ATT_POSITION_OK[ATT_CALLS] = sym::boards_equal(board, &sym::board_of(&want));
         ATT_PLAYER[ATT_CALLS] = Some(player);
         ATT_SQUARE[ATT_CALLS] = square.idx();
         ATT_ANSWER[ATT_CALLS] = ans;
@@ -245,13 +261,21 @@ pub fn attackers_contract(board: &crate::chess::board::Board, player: Player, sq
     }
     Bitboard::new(ans)
 }
-/// the k-th attack query was about position `mb`, colour `player`, square `sq`; returns "no attacker"
-fn att_expect(k: usize, mb: &sym::Mailbox, player: Player, sq: u8) -> bool {
+/// the k-th attack query was about the expected position, colour `player`, square `sq`; returns "no attacker"
+fn att_expect(k: usize, player: Player, sq: u8) -> bool {
     unsafe {
         assert!(k < ATT_CALLS, "an attack test is missing");
         assert!(ATT_PLAYER[k] == Some(player) && ATT_SQUARE[k] == sq, "attack test about the wrong colour / square");
-        assert!(sym::boards_equal(ATT_BOARD[k].as_ref().unwrap(), &sym::board_of(mb)), "attack test on the wrong position");
+        assert!(ATT_POSITION_OK[k], "attack test on the wrong position");
         ATT_ANSWER[k] == 0
+    }
+}
+fn att_reset(mb: &sym::Mailbox) {
+    unsafe {
+        ATT_CALLS = 0;
+        EXPECT_MB = Some(*mb);
+        EXPECT_LIFT = None;
+        EXPECT_EP = None;
     }
 }
 
@@ -390,7 +414,11 @@ fn vk_c01_gen_pawn_captures() {
     let all = game.board.occupancy().as_u64();
     let (check_mask, op, dp): (u64, u64, u64) = (kani::any(), kani::any(), kani::any());
     iter::rec_reset();
-    unsafe { ATT_CALLS = 0; }
+    att_reset(&mb);
+    if let Some(ep) = game.en_passant_target {
+        // FIDE: the king must be safe in the position AFTER the capture: capturer on the ep square, victim removed
+        unsafe { EXPECT_EP = Some((ep.idx(), ahead(player, ep.idx(), -1).unwrap(), player)); }
+    }
     let mut list = fresh_list();
     generate_pawn_captures(&mut list, &game, bb(pawns), Square::from_index(king), bb(theirs), bb(all), bb(check_mask), bb(op), bb(dp));
     let mut want: [Move; 7] = [SENTINEL; 7];
@@ -432,12 +460,8 @@ fn vk_c01_gen_pawn_captures() {
             let s4 = set_of(|s| has(pawns, s) && !has(op, s) && has(geo::pawn(s, player == Player::White), epi));
             if let Some(a) = iter::rec_expect(s4) {
                 if !has(dp, a.idx()) || has(dp, epi) {
-                    let mut after = mb;
-                    after[a.array_idx()] = None;
-                    after[victim as usize] = None;
-                    after[ep.array_idx()] = Some(Piece::new(player, PieceKind::Pawn));
                     // the attack test must be about the position AFTER the capture, our colour, our king's square
-                    if att_expect(0, &after, player, king) {
+                    if att_expect(0, player, king) {
                         want[n] = Move::en_passant(a, ep);
                         n += 1;
                     }
@@ -497,7 +521,8 @@ fn king_gen(captures: bool) {
     let theirs = game.board.occupancy_for(them).as_u64();
     let all = game.board.occupancy().as_u64();
     iter::rec_reset();
-    unsafe { ATT_CALLS = 0; }
+    att_reset(&mb);
+    unsafe { EXPECT_LIFT = Some(king.idx()); }
     let mut list = fresh_list();
     if captures {
         generate_king_captures(&mut list, &game, king, bb(theirs));
@@ -511,9 +536,7 @@ fn king_gen(captures: bool) {
     if let Some(t) = iter::rec_expect(cand) {
         // the attack test is about the position with OUR KING LIFTED off the board (so squares behind the king on a
         // slider's ray are seen as attacked), our colour, the destination square
-        let mut lifted = mb;
-        lifted[king.array_idx()] = None;
-        if att_expect(0, &lifted, player, t.idx()) {
+        if att_expect(0, player, t.idx()) {
             want[0] = if captures { Move::capture(king, t) } else { Move::quiet(king, t) };
             n = 1;
         }
@@ -545,7 +568,7 @@ fn vk_c01_gen_castles() {
     let player = game.player;
     let them = player.other();
     let all = game.board.occupancy().as_u64();
-    unsafe { ATT_CALLS = 0; }
+    att_reset(&mb);
     let mut list = fresh_list();
     generate_castles(&mut list, &game, bb(all));
     let h: u8 = if player == Player::White { 0 } else { 56 };
@@ -555,10 +578,10 @@ fn vk_c01_gen_castles() {
     let mut n = 0;
     let mut q = 0; // attack queries consumed, in order: transit square first, then the king's destination
     if r.king_side && empty(h + 5) && empty(h + 6) {
-        let transit_safe = att_expect(q, &mb, player, h + 5);
+        let transit_safe = att_expect(q, player, h + 5);
         q += 1;
         if transit_safe {
-            let dest_safe = att_expect(q, &mb, player, h + 6);
+            let dest_safe = att_expect(q, player, h + 6);
             q += 1;
             if dest_safe {
                 want[n] = Move::castles(Square::from_index(h + 4), Square::from_index(h + 6));
@@ -567,10 +590,10 @@ fn vk_c01_gen_castles() {
         }
     }
     if r.queen_side && empty(h + 1) && empty(h + 2) && empty(h + 3) {
-        let transit_safe = att_expect(q, &mb, player, h + 3);
+        let transit_safe = att_expect(q, player, h + 3);
         q += 1;
         if transit_safe {
-            let dest_safe = att_expect(q, &mb, player, h + 2);
+            let dest_safe = att_expect(q, player, h + 2);
             q += 1;
             if dest_safe {
                 want[n] = Move::castles(Square::from_index(h + 4), Square::from_index(h + 2));
